@@ -276,8 +276,51 @@ def _wire_async():
     t = r.call(many(), timeout=4000.0)
     if not t.done() or t.exception():
         raise core.HarnessError(f"C16 wire: wrap script failed {t}")
-    # unsolicited partial update -> STATQ ack
+    # lossy phase: a ping, a watercare query and a key press each lose their first transmission while unsolicited partial
+    # updates keep arriving (their STATQ acknowledgements are numbered outside the request lock)
+    from ..peers import frame
+
+    lost = {}
+
+    def drop(data, src):
+        for verb in (b"APING", b"GETWC", b"SPACK"):
+            if verb in data and lost.get(verb, 0) < 1 and armed.get(verb):
+                lost[verb] = lost.get(verb, 0) + 1
+                return True
+        return False
+
+    armed = {}
+    r.peer.drop_request = drop
+
+    def statp_burst():
+        if r.spa is not None and r.spa._transport is not None and not r.spa._transport.closed:
+            r.net.inject(r.spa._transport, frame(SPA_ID, r.man._client_id, b"STATP\x01\x01\x2c\x00" + bytes([burst[0] % 256])), SPA_ADDR)
+        burst[0] += 1
+        if burst[0] < 400:
+            r.loop.call_at(r.loop.time() + 0.7, statp_burst)
+
+    burst = [0]
+    r.loop.call_at(r.loop.time() + 0.1, statp_burst)
+
+    async def lossy():
+        armed[b"GETWC"] = True
+        await r.spa.async_get_watercare()
+        armed[b"SPACK"] = True
+        await r.spa.async_press(1)
+        armed[b"APING"] = True
+        await asyncio.sleep(150.0)
+        await r.spa.async_get_watercare()
+        await r.spa.async_press(2)
+
+    import asyncio
+    t = r.call(lossy(), timeout=600.0)
+    if not t.done() or t.exception():
+        raise core.HarnessError(f"C16 wire: lossy script failed {t}")
+    burst[0] = 10 ** 6
+    r.peer.drop_request = None
+    # every sequenced datagram: its range, and - per kind - the successor of the previous one on this connection
     n = 0
+    last = {}
     for (tm, src, dst, data) in r.net.sent:
         if dst != SPA_ADDR:
             continue
@@ -293,6 +336,13 @@ def _wire_async():
         if not (lo <= seq <= hi):
             viol.append((f"C16|wire|async|{verb.decode()}", f"async client sent {verb.decode()} with sequence {seq}, "
                          f"outside {lo}..{hi}", {"mode": "wire-async"}))
+        elif src in last.get(lo, {}):
+            prev = last[lo][src]
+            if seq != (prev + 1 if prev < hi else lo):
+                viol.append((f"C16|wire|async|successor|{'command' if lo == 192 else 'protocol'}",
+                             f"async client sent {verb.decode()} with sequence {seq} after {prev} in the {lo}..{hi} cycle of that "
+                             f"connection (t={tm:.2f})", {"mode": "wire-async"}))
+        last.setdefault(lo, {})[src] = seq
     r.exit()
     r.close()
     return n, {k: [min(v), max(v), len(v)] for k, v in seen.items()}, viol
